@@ -56,7 +56,7 @@ def configs(tier):
     out.append({"classes": ["UE", "DE", "DE"], "uni": "none", "falsy": None, "symbreak": True, "sought": "box", "nverts": 4})
     if tier != "quick":
         out.append({"classes": ["DE", "DE", "DE"], "uni": "sym", "falsy": 1, "symbreak": True, "sought": "box"})
-        out.append({"classes": ["DE", "UE", "DE"], "uni": "none", "falsy": None, "symbreak": True, "sought": "none"})
+        out.append({"classes": ["DE", "DE", "DE"], "uni": "none", "falsy": None, "symbreak": True, "sought": "none"})
     return out
 
 
